@@ -251,8 +251,8 @@ class Replayer:
                 raise Mismatch("dtype", "object %d: the imaginary part was dropped (dtype %s)" % (k + 1, d.dtype))
             if so.get("ct") is True and not numpy.iscomplexobj(d):
                 raise Mismatch("dtype", "object %d: NumPy's promotion gives a complex-typed result, got dtype %s" % (k + 1, d.dtype))
-            if k in self.noalias:
-                continue
+            if k in self.noalias or so["buf"] in {spec_objs[n]["buf"] for n in self.noalias if n < len(spec_objs)}:
+                continue          # (also views of such a result: they live in the same storage, whichever it is)
             ad = addresses(d)
             for n, (adr, c) in enumerate(zip(ad, so["cells"])):
                 key = (so["buf"], c)
